@@ -10,6 +10,7 @@ import (
 	"encoding/json"
 	"fmt"
 	"os"
+	"time"
 )
 
 type verifReplayFile struct {
@@ -117,3 +118,15 @@ func VerifAllocMax() int  { return 0 }
 func VerifAllocReset()    {}
 func VerifStop()          {}
 func VerifFireTimers() int { return 0 }
+
+// VerifIte is a branch-free conditional (an ite term in the executor).
+func VerifIte(c bool, a, b int) int {
+	if c {
+		return a
+	}
+	return b
+}
+
+// VerifClockAdvance moves the clock seen by time.Now forward by ms milliseconds
+// (executor: the symbolic clock; native replay: sleeps).
+func VerifClockAdvance(ms int64) { time.Sleep(time.Duration(ms) * time.Millisecond) }
